@@ -161,8 +161,15 @@ class Shifts(Stage):
             flt = scripts.gen_matcher_text(d, g) if d.chance(0.35) else d.choice(
                 ['wl_display', 'wl_registry', '.delete_id', '.bind', 'A:', '2', '.new', 'wl_callback', '* ! wl_display', '* ! .bind', '* ! 2', '* ! wl_callback', 'wl_display, wl_registry', '* ! .new'])
         lists = []
-        for _ in range(d.int(0, 2)):
-            lists.append('list ' + (d.choice(['*', 'wl_display', '.delete_id', 'A:', '', 'wl_registry', '.new'])))
+        if d.chance(0.25):
+            # live view restricted to early messages, listings of later ones (the live view's last shown
+            # time must not leak into a listing)
+            flt = '.' + specs[d.int(0, min(2, len(specs) - 1))]['name']
+            lists.append('list .' + specs[d.int(len(specs) // 2, len(specs) - 1)]['name'])
+        g2 = rm.Gen(d, rm.vocab(specs), 1)
+        for _ in range(d.int(0, 3)):
+            lists.append('list ' + (d.choice(['*', 'wl_display', '.delete_id', 'A:', '', 'wl_registry', '.new', 'wl_callback', '.bind', '* ! wl_display', 'B:', '* ! wl_registry'])
+                                    if d.chance(0.7) else scripts.gen_matcher_text(d, g2)))
         return dict(specs=specs, dialect=d.choice(['new', 'old', 'old-comma']), shift=shift, filter=flt, lists=lists)
 
     def execute(self, case):
